@@ -56,7 +56,7 @@ class TD:
                 "delays": [{"b": q, "u": int(Fraction(Decimal(v)) * U) if sm else 0} for q, v in self.delays],
                 "warps": [{"b": q, "ml": int(Decimal(v) * 1000)} for q, v in self.warps]}
 
-    def engine(self, kind="ssc"):
+    def engine(self, kind="ssc", build=True):
         from simfile.ssc import SSCSimfile
         from simfile.timing import TimingData
         from simfile.timing.engine import TimingEngine
@@ -70,6 +70,8 @@ class TD:
         sf.warps = fmt(self.warps)
         sf.offset = self.offset
         tdata = TimingData(sf)
+        if not build:
+            return None, tdata
         return TimingEngine(tdata), tdata
 
     def value(self, form):
@@ -225,7 +227,20 @@ def record(td, rng, kinds, rid, notes_text=None, max_probes=60):
     sm = td.smooth()
     rec = {"id": rid, "td": td.spec(), "smooth": sm, "queries": [], "st": "ok"}
     try:
-        eng, tdata = td.engine()
+        from simfile.timing.engine import TimingEngine
+        _, tdata = td.engine(build=False)
+        eng = None
+        if rng.random() < 0.3:
+            # history: the same TimingData object served an engine before one of its lists was completed in place
+            lists = [n for n in ("stops", "delays", "warps", "bpms") if len(getattr(tdata, n)) > (1 if n == "bpms" else 0)]
+            if lists:
+                name = rng.choice(lists)
+                lst = getattr(tdata, name)
+                last = lst.pop()
+                first_engine = TimingEngine(tdata)
+                first_engine.time_at(beat_of(rng.choice(td.event_positions())))
+                lst.append(last)
+        eng = TimingEngine(tdata)
     except Exception as e:  # noqa
         rec["st"] = "engine-raised:" + type(e).__name__
         return rec
@@ -242,8 +257,12 @@ def record(td, rng, kinds, rid, notes_text=None, max_probes=60):
             rec["st"] = "query-raised:" + type(e).__name__
             return None
     if "time" in kinds:
-        for p in ps:
-            for tag in (TAGS if rng.random() < 0.5 else [0, 4, 5, 6]):
+        order = [(p, tag) for p in ps for tag in (TAGS if rng.random() < 0.5 else [0, 4, 5, 6])]
+        if rng.random() < 0.6:
+            rng.shuffle(order)          # answers must not depend on the order of earlier queries
+            order += rng.sample(order, min(len(order), 20))
+        for p, tag in order:
+            if True:
                 t = safe(lambda: eng.time_at(beat_of(p), tag_enum(tag)))
                 if t is None:
                     return rec
@@ -257,14 +276,14 @@ def record(td, rng, kinds, rid, notes_text=None, max_probes=60):
                 return rec
             qs.append({"k": "time", "b": p, "tag": 5, "t": (time_u(td, t) or 0) if sm else 0, "_f": float(t)})
     if "bpm" in kinds:
-        for p in ps:
+        for p in (rng.sample(ps, len(ps)) if rng.random() < 0.5 else ps):
             v = safe(lambda: eng.bpm_at(beat_of(p)))
             if v is None:
                 return rec
             got = [i + 1 for i, (_, bv) in enumerate(td.bpms) if Decimal(bv) == Decimal(v)]
             qs.append({"k": "bpm", "b": p, "got": got or [0]})
     if "hit" in kinds:
-        for p in ps:
+        for p in (rng.sample(ps, len(ps)) if rng.random() < 0.5 else ps):
             v = safe(lambda: eng.hittable(beat_of(p)))
             if v is None:
                 return rec
